@@ -1307,4 +1307,22 @@ theorem CInv.mirrorOk_true {σ : CState} (h : CInv σ) :
   simp only [hw]
   exact this
 
+/-! ## a failed put and its repair by the refresh worker -/
+
+theorem alInsert_insert {κ ν : Type} [DecidableEq κ] (k : κ) (v v' : ν) (l : List (κ × ν)) :
+    alInsert k v (alInsert k v' l) = alInsert k v l := by
+  unfold alInsert
+  congr 1
+  have : alErase k ((k, v') :: alErase k l) = alErase k (alErase k l) := by
+    unfold alErase; simp
+  rw [this, alErase_idem]
+
+/-- put whose publish failed; the next lookup queues the refresh (`lastRouteSyncNano == 0`); the worker applies
+it: the state is the one a successful put would have produced (up to the sync stamp). -/
+theorem failed_put_then_refresh_eq_store (σ : CState) (hp : σ.pending = []) (key : String) (e : Entry) :
+    cstep (cstep (σ.storeUnsynced key e) (.look key false true)) .work =
+      σ.store key { e with lastSync := σ.now } := by
+  simp only [cstep, CState.storeUnsynced, CState.queueRefresh, CState.store, CState.applyTask, hp,
+    alLookup_insert, if_true, List.nil_append, alInsert_insert, Bool.false_eq_true, if_false, Entry.snap]
+
 end DaeVerif.C10
